@@ -165,32 +165,67 @@ def main():
             return r
         saved = lib.solve_bracketed_brent
         lib.solve_bracketed_brent = brent
-        exb = Explorer(max_paths=400, query_timeout_ms=60000)
-        with explore.activate(exb):
-            exb.assume(mu >= Fraction(1, 10 ** 9))      # the property quantifies down to the smallest catalogue ratio (~2e-9)
-            exb.assume(mu <= HALF)
+        # the mass-ratio range named by the property (down to the smallest catalogue ratio ~2e-9), covered by adjacent closed pieces:
+        # smaller boxes keep the non-linear sign queries (cube-root atoms of the Hill radius) within reach of nlsat
+        cuts = [Fraction(1, 10 ** 9), Fraction(1, 10 ** 6), Fraction(1, 1000), Fraction(1, 50), Fraction(2, 25), Fraction(3, 20), Fraction(1, 4), Fraction(7, 20), HALF]
         svc = fake_service(cls, mu=mu, domain_obj=Stub())
 
         def go():
             return svc._compute_position(svc._position_search_interval)
+        bad, npaths, nunknown, bad_ex, wrong_region = [], 0, 0, None, []
         try:
-            paths = exb.run(go)
+            for lo, hi in zip(cuts[:-1], cuts[1:]):
+                exb = Explorer(max_paths=400, query_timeout_ms=60000)
+                with explore.activate(exb):
+                    exb.assume(mu >= lo)
+                    exb.assume(mu <= hi)
+                paths = exb.run(go)
+                npaths += len(paths)
+                nunknown += exb.unknown
+                b = [p for p in paths if p.exc is not None and not isinstance(p.exc, explore.PathAbort)]
+                if b and not bad:
+                    bad, bad_ex = b, exb
+                # a returned root is the wanted equilibrium only if the bracket lies inside the point's own region, away from the
+                # singularities at the primaries (Brent converges to a pole as readily as to a root, and the region's root is unique by (2))
+                for p in paths:
+                    if p.exc is not None or wrong_region:
+                        continue
+                    r = Sym.lift(p.value)
+                    ends = [r]
+                    if len(r.t) == 1 and len(next(iter(r.t))) == 1 and W.kind[next(iter(r.t))[0][0]] == 'opq' and W.defn[next(iter(r.t))[0][0]][0] == 'root':
+                        ends = list(W.defn[next(iter(r.t))[0][0]][1])
+                    with explore.activate(exb):
+                        goals = []
+                        for e in ends:
+                            goals += {'L1': [e > -mu, e < 1 - mu], 'L2': [e > 1 - mu], 'L3': [e < -mu]}[pname]
+                    v, m, kk = exb.prove_all(p, goals)
+                    if v != 'unsat':
+                        wrong_region.append((v, model_to_env(m) if m is not None else {}, [str(e) for e in ends]))
+                chk.absorb(exb)
         finally:
             lib.solve_bracketed_brent = saved
-        bad = [p for p in paths if p.exc is not None and not isinstance(p.exc, explore.PathAbort)]
         oid = 'C04/(3)bracket/%s' % pname
-        if not bad and not exb.unknown:
-            chk.ok(oid, '%d paths: for every mu in (0,1/2] the primary or the fallback interval has end values of opposite sign (a root is returned on every path)' % len(paths),
-                   sample={'point': pname, 'paths': len(paths)})
+        if not bad and not nunknown:
+            chk.ok(oid, '%d paths over %d adjacent mu-intervals covering [1e-9, 1/2]: the primary or the fallback interval has end values of opposite sign (a root is returned on every path)' % (npaths, len(cuts) - 1),
+                   sample={'point': pname, 'paths': npaths})
         elif bad:
-            v, m = exb.check(bad[0].conds(), bad[0].atoms())
+            v, m = bad_ex.check(bad[0].conds(), bad[0].atoms())
             env = model_to_env(m) if m is not None else {}
             muv = env.get('mu')
             chk.fail(oid, 'for mu = %s neither the primary nor the fallback search interval brackets the equilibrium: %s' % (('%.3e' % float(muv)) if muv is not None else '?', str(bad[0].exc)[:160]),
                      _replay_bracket(pname, float(muv) if muv is not None else 2.3e-9), env)
         else:
             chk.unknown(oid, 'feasibility of a bracket path could not be decided')
-        chk.absorb(exb)
+        oid = 'C04/(3)bracket-region/%s' % pname
+        if not wrong_region:
+            chk.ok(oid, 'on every path the bracket handed to the root finder (and so the returned root) lies strictly inside the region of %s, with no primary inside it' % pname)
+        elif wrong_region[0][0] == 'sat':
+            env = wrong_region[0][1]
+            muv = env.get('mu')
+            chk.fail(oid, 'for mu = %s the root finder is run on %s, which is not inside the region of %s (it returns another equilibrium or a singularity)' % (
+                ('%.3e' % float(muv)) if muv is not None else '?', wrong_region[0][2], pname), _replay_bracket(pname, float(muv) if muv is not None else 2.3e-9), env)
+        else:
+            chk.unknown(oid, 'region containment of a bracket could not be decided')
         # catalogue ratios, concretely
         failing = []
         for name, muc in catalogue_mus():
@@ -345,13 +380,17 @@ _verdict(worst > 1e-8, largest_residual_acceleration=worst)
 def _replay_bracket(pname, mu):
     return '''
 from hiten.system import System
-mu = %r
+from hiten.algorithms.dynamics.rtbp import _crtbp_accel
+mu = %r; k = %d
 try:
     s = System.from_mu(mu)
-    pos = s.get_libration_point(%d).position
-    _verdict(False, position=pos.tolist())
+    pos = np.asarray(s.get_libration_point(k).position, dtype=float)
 except Exception as e:
     _verdict(True, mu=mu, raised=type(e).__name__, message=str(e)[:200])
+x = float(pos[0])
+acc = _crtbp_accel(np.array([x, 0.0, 0.0, 0.0, 0.0, 0.0]), mu)
+in_region = {1: -mu < x < 1 - mu, 2: x > 1 - mu, 3: x < -mu}[k]
+_verdict((not in_region) or abs(float(acc[3])) > 1e-8, mu=mu, x=x, in_region=bool(in_region), residual_acceleration=float(acc[3]))
 ''' % (mu, int(pname[1]))
 
 
